@@ -1,11 +1,45 @@
 // Overlaid INTO package dawn by the pickle verification harness (never part of /repo): exposes the unpickler that
-// function targets use for their persisted environment, so that the record-level stream of C15 can tell whether a
-// corrupted stamp still decodes, and to what.
+// function targets use for their persisted environment, the reversible escaping of dependency labels in records, and a
+// semantic comparison of two record files, so that the record-level streams of C15 can tell whether a corrupted record
+// still means what it meant.
 package dawn
 
-import "go.starlark.net/starlark"
+import (
+	"bytes"
+	"encoding/json"
+	"reflect"
+
+	"go.starlark.net/starlark"
+)
 
 // VerifEnvUnpickler is envUnpickler.
 func VerifEnvUnpickler(module, name string, args starlark.Tuple) (starlark.Value, error) {
 	return envUnpickler(module, name, args)
+}
+
+// VerifEscapeLabel / VerifUnescapeLabel are escapeLabel / unescapeLabel.
+func VerifEscapeLabel(s string) string   { return escapeLabel(s) }
+func VerifUnescapeLabel(s string) string { return unescapeLabel(s) }
+
+// VerifSameRecord reports whether two record files decode, the way loadTargetInfo decodes them, to the same targetInfo.
+func VerifSameRecord(a, b []byte, ignoreRuns, source bool) bool {
+	var x, y targetInfo
+	// (a streaming decoder, like loadTargetInfo: what follows the first JSON value is not read)
+	if json.NewDecoder(bytes.NewReader(a)).Decode(&x) != nil || json.NewDecoder(bytes.NewReader(b)).Decode(&y) != nil {
+		return false
+	}
+	x.Doc, y.Doc = "", "" // documentation: never part of an up-to-date decision
+	if source {          // attrs is compared for function targets only (runTarget.Evaluate)
+		x.Attrs, y.Attrs = "", ""
+	}
+	if ignoreRuns { // the run counter of a target is read only by its dependents
+		x.Runs, y.Runs = 0, 0
+	}
+	if y.Attrs == "" { // "Empty in records written by older versions": by design such a record is not rerun for its attrs
+		x.Attrs = ""
+	}
+	if len(x.Dependencies) == 0 && len(y.Dependencies) == 0 {
+		x.Dependencies, y.Dependencies = nil, nil
+	}
+	return reflect.DeepEqual(x, y)
 }
